@@ -322,6 +322,9 @@ class RecordSet(object):
     return found
 
   def _bisect_index(self, bisect_func, search_row_id, search_values=None):
+    if search_values is None and not self._sort_key and not self._sort_by:
+      # Ordered by row id alone (e.g. order_by="id"): the row ids themselves are the sort keys.
+      return bisect_func(self._row_ids, search_row_id)
     key = self._get_sort_key()
     # Note that 'key' argument is only available from Python 3.10.
     return bisect_func(self._row_ids, key(search_row_id, search_values), key=key)
